@@ -9,6 +9,7 @@ import (
 	"encoding/json"
 	"fmt"
 	"os"
+	"unsafe"
 )
 
 type vVector struct {
@@ -140,8 +141,19 @@ func vOrigin(tag string)         {}
 func vFootBegin()                {}
 func vFootReport(label string)   {}
 func vAllocLimit(limit int)      {}
+// vSameObject: do the two views lie in the same allocation? (native: address
+// range test on the first view's full capacity)
 func vSameObject(a, b []byte) bool {
-	return len(a) > 0 && len(b) > 0 && &a[0] == &b[0]
+	pa, pb := uintptr(unsafe.Pointer(unsafe.SliceData(a))), uintptr(unsafe.Pointer(unsafe.SliceData(b)))
+	if pa == 0 || pb == 0 {
+		return false
+	}
+	return pb >= pa && pb <= pa+uintptr(cap(a))
+}
+
+// vDelta: element offset of b relative to a inside one allocation.
+func vDelta(a, b []byte) int {
+	return int(uintptr(unsafe.Pointer(unsafe.SliceData(b))) - uintptr(unsafe.Pointer(unsafe.SliceData(a))))
 }
 func vAliasBytes(a, b []byte) bool {
 	for i := range a {
